@@ -104,7 +104,12 @@ type GRPCClient struct {
 // ClientProtocol impl.
 func (c *GRPCClient) Close() error {
 	c.broker.Close()
-	c.controller.Shutdown(c.doneCtx, &plugin.Empty{})
+
+	// Bound the shutdown request: a plugin that is frozen or otherwise not
+	// answering must not be able to block Close (and therefore Kill) forever.
+	ctx, cancel := context.WithTimeout(c.doneCtx, 2*time.Second)
+	defer cancel()
+	c.controller.Shutdown(ctx, &plugin.Empty{})
 	return c.Conn.Close()
 }
 
